@@ -72,7 +72,8 @@ def run_item(item):
         try:
             with warnings.catch_warnings(record=True) as w:
                 warnings.simplefilter("always")
-                out = env.compute_taxes_and_transfers(data, params, functions, targets=list(targets), **kw)
+                as_str = kw.pop("targets_as_str", False)  # a single target may be passed as a plain string
+                out = env.compute_taxes_and_transfers(data, params, functions, targets=(list(targets)[0] if as_str else list(targets)), **kw)
         except Exception as e:  # noqa: BLE001
             viol(f"exception:{label}:{type(e).__name__}",
                  f"targets={sorted(targets)[:6]} ({label}, {kw}) raises {type(e).__name__}: {str(e)[:160]} "
@@ -101,8 +102,10 @@ def run_item(item):
     my_nodes = [t for i, t in enumerate(nodes) if i % item["chunks"] == item["chunk"]]
     if item["tier"] == "quick":
         my_nodes = [my_nodes[i] for i in rng.choice(len(my_nodes), min(14, len(my_nodes)), replace=False)]
-    for t in my_nodes:
+    for j, t in enumerate(my_nodes):
         run([t], "singleton")
+        if j % 5 == 0:
+            run([t], "singleton_as_string", targets_as_str=True)
     for _ in range(4 if item["tier"] == "quick" else 10):
         size = min(int(rng.integers(2, 41)), len(nodes))
         run([nodes[i] for i in rng.choice(len(nodes), size, replace=False)], "subset")
